@@ -34,6 +34,11 @@ def representatives():
         {"dir": "both", "cday": "first", "hday": "first", "shape": "1h", "base": 0.2, **P},
         {"dir": "both", "cday": "last", "hday": "last", "shape": "6h", "base": 0.2, **P},
         {"dir": "both", "cday": "mid", "hday": "second", "shape": "30h", "base": 0.2, **P},
+        # the load held at its monthly maximum through the whole last / first day of the month (the peak window reaches the month boundary)
+        {"dir": "c", "cday": "last", "shape": "24h", "base": 0.2, "ch": 0, **P},
+        {"dir": "h", "hday": "last", "shape": "24h", "base": 0.2, "hh": 0, **P},
+        {"dir": "c", "cday": "first", "shape": "24h", "base": 0.2, "ch": 0, **P},
+        {"dir": "h", "hday": "first", "shape": "24h", "base": 0, "hh": 0, **P},
     ]
     cases = [{"profile": "patterns", "patterns": [p] * 12} for p in pats]
     # alternating months (cooling-only summers, heating-only winters)
